@@ -437,6 +437,7 @@ def one_wallet(ctx, rng, kind, m, n, network, n_in, segwit_flag, quick):
                 check_roundtrip(ctx, stage_bytes, wallet, "signed" if len(S) == 1 else "combined")
             if group[0][2][0] == "ok" and len(S) == min(n, m):
                 check_roundtrip(ctx, group[0][2][1][0], wallet, "finalized")
+                late_bad_sig(ctx, rng, wallet, sc, group[0][2][1][0])
     if len(ctx.samples) < 3:
         ctx.sample({"kind": kind, "m": m, "n": n, "inputs": n_in, "network": network, "base_psbt": base[:200],
                     "histories": {str(S): [(d[0], list(d[1])) for d, _, _ in g] for S, g in list(results.items())[:4]}})
@@ -592,6 +593,30 @@ def unusual_partial_sigs(ctx, rng, wallet, sc, base, cache):
             if of[0] == "exc":
                 ctx.violation(f"final-tx-refused-with-valid-short-sig:{wallet.kind}", of[1], case)
         ctx.case((raw,))
+
+
+def late_bad_sig(ctx, rng, wallet, sc, finalised):
+    """A finalised PSBT that also carries a partial signature (a late cosigner's PSBT combined in): the partial signature
+    is still a partial signature - one that does not verify must keep the PSBT from loading."""
+    from props.psbtlib import reparse
+
+    m = rp.decode(finalised)
+    secs = [k for k in sc.pubkey_lookup if isinstance(k, bytes) and len(k) == 33]
+    if not secs:
+        return
+    junk = ec.der(rng.randrange(1, ec.N), rng.randrange(1, ec.N // 2)) + b"\x01"
+    ins = [list(x) for x in m["ins"]]
+    ins[0] = ins[0] + [(b"\x02" + rng.choice(secs), junk)]
+    raw = rp.encode({"global": m["global"], "ins": ins, "outs": m["outs"]})
+    ctx.count("badsig:junk-partial-sig-on-finalised-input")
+    ctx.monitor("bad-partial-sig-load")
+    o = outcome(reparse, raw, wallet.network)
+    if o[0] == "ok":
+        ctx.violation("psbt-loads-invalid-partial-sig:on-finalised-input", f"{wallet.kind}: a junk partial signature next to the final scriptSig / witness loaded",
+                      {"op": "psbt-bytes", "raw": raw, "network": wallet.network, "stage": "badsig:on-finalised-input"})
+    else:
+        ctx.rejected_by_exception += 1
+    ctx.case((raw, "late-bad-sig"))
 
 
 def foreign_sig_topup(ctx, rng, wallet, sc, base, cache):
